@@ -197,6 +197,8 @@ pub struct CondModel {
     pub depth: u8,
     pub transitions: std::sync::atomic::AtomicU64,
     pub bad: Mutex<Vec<String>>,
+    /// number of states at the depth bound on which the invariant was evaluated (guards against a silently unchecked last layer)
+    pub checked_last: std::sync::atomic::AtomicU64,
 }
 
 impl Model for CondModel {
@@ -234,7 +236,12 @@ impl Model for CondModel {
         Some(St { depth: s.depth + 1, render: format!("{:?}", cond), cond, reference, bad })
     }
     fn properties(&self) -> Vec<Property<Self>> {
-        vec![Property::always("getters equal the clamped reference", |_m: &CondModel, s: &St| s.bad.is_none())]
+        vec![Property::always("getters equal the clamped reference", |m: &CondModel, s: &St| {
+            if s.depth == m.depth {
+                m.checked_last.fetch_add(1, std::sync::atomic::Ordering::Relaxed);
+            }
+            s.bad.is_none()
+        })]
     }
 }
 
@@ -302,12 +309,14 @@ pub fn run(tier: Tier) -> i32 {
                 depth,
                 transitions: Default::default(),
                 bad: Mutex::new(vec![]),
+                checked_last: Default::default(),
             };
-            let checker = model.checker().threads(threads).target_max_depth(depth as usize + 1).spawn_bfs().join();
+            let checker = model.checker().threads(threads).target_max_depth(depth as usize + 2).spawn_bfs().join();
             let uniq = checker.unique_state_count() as u64;
             let gen = checker.state_count() as u64;
             let tr = checker.model().transitions.load(std::sync::atomic::Ordering::Relaxed);
             counts.push((uniq, checker.max_depth()));
+            rep.guard(checker.model().checked_last.load(std::sync::atomic::Ordering::Relaxed) > 0, "invariant never evaluated on states at the depth bound");
             if threads == nthreads() {
                 total_states += gen;
                 total_unique += uniq;
